@@ -93,8 +93,18 @@ def execute(c):
                 CRS(f"epsg:{s}").transformer_to_crs(CRS(f"epsg:{d}"), always_xy=False)
                 CRS(f"epsg:{d}").transformer_to_crs(CRS(f"epsg:{s}"), always_xy=False)
             unit = 1 / 1000 if s == "4326" else 10.0
-            res = c["r"] * unit if c["r"] else None
-            out = g.to_crs(f"epsg:{d}", resolution=res)
+            res = c["r"] * unit if c["r"] > 0 else None
+            if c["r"] == -1:
+                # "auto": densified with the step the library itself picks, then every vertex mapped exactly
+                from odc.geo.geom import _auto_resolution
+                res = _auto_resolution(g)
+                out = g.to_crs(f"epsg:{d}", resolution="auto")
+            else:
+                out = g.to_crs(f"epsg:{d}", resolution=res)
+            # asking to check-and-fix a result that is valid changes nothing
+            fixed = g.to_crs(f"epsg:{d}", resolution=("auto" if c["r"] == -1 else res), check_and_fix=True)
+            if out.geom.is_valid and not fixed.geom.equals_exact(out.geom, 0):
+                ev["outcome"] = "check_and_fix_changed_a_valid_result"
             ev["sig_in"] = _flatten((g.segmented(res) if res else g).geom, lambda x, y: 0)[0]
             ev["sig_out"] = _flatten(out.geom, lambda x, y: 0)[0]
             ev["crs_ok"] = bool(out.crs == CRS(f"epsg:{d}"))
